@@ -201,7 +201,7 @@ func scatterOne(s *stats, cl *cluster, sc *schedule.RegionScatterer, sh *shadow,
 	sh.calls++
 	if panicked != nil {
 		s.report(&finding{Key: "panic-in-scatter", What: fmt.Sprintf("RegionScatterer.Scatter panicked: %v", panicked), Size: len(cl.w.Stores) * 1000,
-			Witness: map[string]interface{}{"world": cl.w, "region": originSummary(region), "group": group, "scatter_history": hist, "panic": fmt.Sprint(panicked)}})
+			Witness: map[string]interface{}{"world": cl.w.clone(), "region": originSummary(region), "group": group, "scatter_history": hist, "panic": fmt.Sprint(panicked)}})
 		sh.exact = false
 		return
 	}
@@ -220,7 +220,13 @@ func scatterOne(s *stats, cl *cluster, sc *schedule.RegionScatterer, sh *shadow,
 		return
 	}
 	s.count("scatter_operators", 1)
-	c := &opCase{Src: "scatter", W: cl.w, Origin: region, Op: op, LossKey: classify,
+	if op.RegionID() != region.GetID() {
+		s.report(&finding{Key: "scatter-operator-for-another-region", What: fmt.Sprintf("Scatter(region %d) returned an operator for region %d", region.GetID(), op.RegionID()), Size: len(cl.w.Stores) * 1000,
+			Witness: map[string]interface{}{"world": cl.w.clone(), "region": originSummary(region), "group": group, "operator": op.String()}})
+		sh.exact = false
+		return
+	}
+	c := &opCase{Src: "scatter", W: cl.judgeWorld(), Origin: region, Op: op, LossKey: classify,
 		Extra: map[string]interface{}{"group": group, "scatter_history": hist}}
 	v := judgeOp(s, c)
 	if !v.Complete {
@@ -230,14 +236,29 @@ func scatterOne(s *stats, cl *cluster, sc *schedule.RegionScatterer, sh *shadow,
 	}
 	sh.put(v.Final.Stores(), v.Final.LeaderStore, group)
 	sh.note("%s group=%q -> %s", layout, group, v.Final.String())
-	if v.Failed {
-		return
-	}
 	moved := false
+	adds := 0
 	for _, st := range sim.Steps(op) {
-		if _, ok := st.(operator.TransferLeader); !ok {
+		switch st.(type) {
+		case operator.TransferLeader:
+		case operator.AddLearner, operator.AddLightLearner, operator.AddPeer, operator.AddLightPeer:
+			adds++
+			moved = true
+		default:
 			moved = true
 		}
+	}
+	if len(cl.w.Stores) >= 50 {
+		s.count(fmt.Sprintf("scatter_at_scale_operators_with_%d_additions", adds), 1)
+	}
+	if adds >= 5 {
+		s.count("scatter_operators_moving_5_or_more_peers_at_once", 1)
+	}
+	if len(region.GetPeers()) >= 7 {
+		s.count("scatter_operators_for_regions_of_7_or_more_peers", 1)
+	}
+	if v.Failed {
+		return
 	}
 	if moved {
 		s.count("scatter_operators_moving_peers", 1)
@@ -292,7 +313,7 @@ func scatterBatch(s *stats, cl *cluster, sc *schedule.RegionScatterer, sh *shado
 	sh.calls += len(regions)
 	if panicked != nil {
 		s.report(&finding{Key: "panic-in-scatter", What: fmt.Sprintf("RegionScatterer.ScatterRegions panicked: %v", panicked), Size: len(cl.w.Stores) * 1000,
-			Witness: map[string]interface{}{"world": cl.w, "regions": ids, "group": group, "scatter_history": hist, "panic": fmt.Sprint(panicked)}})
+			Witness: map[string]interface{}{"world": cl.w.clone(), "regions": ids, "group": group, "scatter_history": hist, "panic": fmt.Sprint(panicked)}})
 		sh.exact = false
 		return
 	}
@@ -305,7 +326,7 @@ func scatterBatch(s *stats, cl *cluster, sc *schedule.RegionScatterer, sh *shado
 		origin := byRegion[op.RegionID()]
 		if origin == nil {
 			s.report(&finding{Key: "scatter-operator-for-unrequested-region", What: fmt.Sprintf("ScatterRegions returned an operator for region %d which was not in the request %v", op.RegionID(), ids), Size: 1,
-				Witness: map[string]interface{}{"world": cl.w, "regions": ids, "operator": op.String()}})
+				Witness: map[string]interface{}{"world": cl.w.clone(), "regions": ids, "operator": op.String()}})
 			continue
 		}
 		if got[op.RegionID()] {
@@ -313,7 +334,7 @@ func scatterBatch(s *stats, cl *cluster, sc *schedule.RegionScatterer, sh *shado
 		}
 		got[op.RegionID()] = true
 		s.count("scatter_operators", 1)
-		c := &opCase{Src: "scatter", W: cl.w, Origin: origin, Op: op, LossKey: sh.lossClassifier(origin, false),
+		c := &opCase{Src: "scatter", W: cl.judgeWorld(), Origin: origin, Op: op, LossKey: sh.lossClassifier(origin, false),
 			Extra: map[string]interface{}{"group": group, "scatter_history": hist, "batch": ids}}
 		v := judgeOp(s, c)
 		if !v.Complete {
@@ -340,9 +361,11 @@ func scatterBatch(s *stats, cl *cluster, sc *schedule.RegionScatterer, sh *shado
 	}
 }
 
-// scatterWorld: one world, one scatterer kept alive over all calls.
-func scatterWorld(s *stats, rng *rand.Rand, nRegions, rounds int) error {
-	w := randomWorld(rng, true)
+// scatterWorld: one world, one scatterer kept alive over all calls. In a dynamic world stores, labels, the
+// reject-leader property list, placement rules and max-replicas change between (and sometimes inside) calls,
+// and the id allocator may fail. scale > 0: hundreds of stores, dozens of groups, regions with 5-7 peers.
+func scatterWorld(s *stats, rng *rand.Rand, nRegions, rounds int, scale int) error {
+	w := randomWorld(rng, scale)
 	cl, err := newCluster(w)
 	if err != nil {
 		return fmt.Errorf("cannot build cluster: %v (%+v)", err, w)
@@ -364,9 +387,29 @@ func scatterWorld(s *stats, rng *rand.Rand, nRegions, rounds int) error {
 	sc := schedule.NewRegionScatterer(cl.ctx, cl)
 	sh := newShadow(w)
 	groups := []string{"", "g1", "g2", "g3"}[:1+rng.Intn(4)]
+	if scale > 0 {
+		s.count("scatter_worlds_at_scale", 1)
+		s.count("scatter_stores_in_worlds_at_scale", int64(len(w.Stores)))
+		groups = nil
+		for g := 0; g < 30+rng.Intn(40); g++ {
+			groups = append(groups, fmt.Sprintf("table-%d", g))
+		}
+	}
+	dynamic := rng.Intn(100) < 60
+	if dynamic {
+		s.count("scatter_worlds_dynamic", 1)
+	}
+	if rng.Intn(100) < 15 {
+		cl.allocFailPct = 10
+		sh.exact = false // a build may fail for a placement the harness does not see
+		s.count("scatter_worlds_with_id_allocation_faults", 1)
+	}
 	applyPct := []int{0, 30, 60}[rng.Intn(3)]
 	calls := len(regions) * rounds
 	for k := 0; k < calls; k++ {
+		if dynamic && rng.Intn(100) < 4 {
+			cl.mutate(rng, s, true)
+		}
 		id := regions[rng.Intn(len(regions))].GetID()
 		region := cl.GetRegion(id)
 		if region == nil {
@@ -375,6 +418,13 @@ func scatterWorld(s *stats, rng *rand.Rand, nRegions, rounds int) error {
 		group := groups[int(id)%len(groups)]
 		if rng.Intn(10) == 0 {
 			group = groups[rng.Intn(len(groups))]
+		}
+		if scale > 0 && rng.Intn(100) < 70 {
+			group = groups[rng.Intn(3)] // a few busy tables among dozens of idle ones
+		}
+		if dynamic && rng.Intn(100) < 3 {
+			cl.armMidCallChange(rng, s)
+			sh.exact = false
 		}
 		if k%40 == 39 {
 			var batch []*core.RegionInfo
@@ -387,10 +437,12 @@ func scatterWorld(s *stats, rng *rand.Rand, nRegions, rounds int) error {
 				}
 			}
 			scatterBatch(s, cl, sc, sh, batch, group, rng.Intn(2) == 0)
-			continue
+		} else {
+			scatterOne(s, cl, sc, sh, region, group, rng, applyPct)
 		}
-		scatterOne(s, cl, sc, sh, region, group, rng, applyPct)
+		cl.disarm()
 	}
+	s.count("id_allocation_faults_injected", int64(cl.allocFaults))
 	if sh.exact {
 		s.count("scatter_worlds_history_exact", 1)
 	}
